@@ -10,10 +10,12 @@ PROPS["C02"] = {
     "modelled": "gen/templates/go_parser.go.tmpl: parse loop with applyRule (report ranges, rule default type), fixTrailingWS, reportRange, offsets of empty reductions (Gram/Events.v xrun). "
                 "compiler/compiler.go generateTables (traverse: arrows -> reports, promotion of the last full range to the rule type) is NOT modelled: its output (per-rule Type/Report/HasTrailingNulls) is an input of the model, "
                 "and the specification oracle starts from the arrows as written in the source, so a wrong translation shows up as an oracle rejection",
-    "partial": "exactness theorem proved for fixWhitespace parsers; without fixWhitespace only the forest/stack theorem (C02_events_follow_the_stack) is proved and nodes ending with an empty symbol extend over following whitespace (known finding). "
+    "partial": "exactness theorem proved for fixWhitespace parsers; without fixWhitespace it is proved for token streams without gaps (C02_events_without_fixWhitespace_no_gaps), and in general the events are proved to be the 'loose' ones: "
+               "a node ending with a (recursively) empty symbol extends to the start of the following token (C02_events_without_fixWhitespace, C02_loose_end_characterisation; the known finding, made exact). "
                "That the tree built is THE derivation (uniqueness) rests on C01 (conflict-free LALR); not proved here",
     "level_text": "Coq theorems (Props/C02.v), universal over machines, event tables, token sequences and fuel: an accepting run of the fixWhitespace parse loop builds a tree whose leaves are exactly the input tokens and emits exactly the post-order list of the arrows of that tree, "
                   "each with its node type and the byte range from the first to the last token of the annotated part (an empty part sits at the following token); at every point of every run the emitted events are those of the forest on the stack. "
+                  "Without fixWhitespace: the same exactness theorem on token streams without gaps, and for every token stream the exact 'loose' ranges (first token .. end of last token, or the start of the following token exactly when the last symbol is recursively empty). "
                   "The loop model is compared callback for callback with generated parsers, and every callback sequence is judged by the specification evaluated on the generator's own derivation tree and the arrows as written in the grammar source.",
     "level_note": "Trusted: Coq kernel, extraction, glue. The theorem's well-formedness hypothesis is evaluated (proved-sound boolean wf_treeb) on every accepted sample. Sentences only (no error events: C19/C20).",
     "technique": "Coq proof over the event-emitting loop model + extracted-model differential correspondence with generated parsers + specification oracle on the generator's derivation tree",
